@@ -4,7 +4,8 @@
    cache_check / inner_file_handler gets exactly F of its own key: on a hit, on a miss, after evictions and expiries, for
    every history, every clock and every cache size. Property theorems only (proofs: CacheTransparencyProofs.v). *)
 From Hv Require Import Prelude Bytes TablesHttp TablesConfig Http Krauss Routing RoutingProofs Blacklist StaticFs Config
-  Server ServerProofs ServerCacheKeyProofs Cache CacheProofs CacheTransparencyProofs.
+  Server ServerProofs ServerCacheKeyProofs Cache CacheProofs CacheTransparencyProofs ServerCachedProofs.
+From HvProps Require Import C04_server.
 Open Scope N_scope.
 
 Theorem C16_cache_transparent :
@@ -59,7 +60,42 @@ Theorem C16_route_index_function_of_key :
     fst (handler_ids ch1) = fst (handler_ids ch2) -> ch1 = ch2.
 Proof. exact route_index_function_of_key. Qed.
 
+(* The composition: any sequence of requests that the cache-free server model answers 200 from its static routes, pushed
+   through the handlers' cache (key = path and host index, store on a miss, any size / time limit / clock): every response,
+   hit or miss, carries exactly the body and content type the cache-free server gives to that very request. *)
+Theorem C16_server_cache_transparent :
+  forall ipp fs (c : config) (enc : option bytes -> N) (es : list (entry)) lim tl ps c',
+    Forall (entry_ok ipp fs c) es ->
+    hrun (empty lim tl) (map (entry_q enc) es) = (ps, Ok c') ->
+    Forall2 (fun (e : entry) (p : Cache.resp) =>
+               let '(s, _, _, _) := e in
+               exists ct, server_response ipp fs c (sq_peer s) (sq_req s) = SStatic (R200 (p_body p) ct) /\ p_mime p = enc ct)
+            es ps.
+Proof. exact server_cache_transparent. Qed.
+
+(* Non-vacuity of the composition: the configuration text of C04_server_example loaded by Config.load, four requests to
+   its directory and file routes through a cache that holds one 3-byte entry at a time (miss, hit, miss with eviction, miss) *)
+Definition C16_ex_enc (ct : option bytes) : N := match ct with Some l => N.of_nat (length l) | None => 0 end.
+Definition C16_ex_sq (uri : bytes) (now : N) : sreq :=
+  {| sq_peer := ex_peer [49;50;55;46;48;46;48;46;49]; sq_req := ex_req [120] uri None; sq_now := now |}.
+Example C16_server_cache_example : exists c, load ipv4_parse ex_files [101;50;101;46;99;111;110;102] ex_conf = ROk c /\
+  let es : list entry :=
+    [ (C16_ex_sq [47;115;47;97;46;116;120;116] 10, InDefault 0, [65;65;65], Some [116;101;120;116;47;112;108;97;105;110]);
+      (C16_ex_sq [47;115;47;97;46;116;120;116] 11, InDefault 0, [65;65;65], Some [116;101;120;116;47;112;108;97;105;110]);
+      (C16_ex_sq [47;122;122;122] 12, InDefault 1, [60;105;62], Some [116;101;120;116;47;104;116;109;108]);
+      (C16_ex_sq [47;115;47;97;46;116;120;116] 13, InDefault 0, [65;65;65], Some [116;101;120;116;47;112;108;97;105;110]) ] in
+  Forall (entry_ok ipv4_parse ex_fs c) es /\
+  exists ps c', hrun (empty 3 60) (map (entry_q C16_ex_enc) es) = (ps, Ok c') /\
+    map p_cached ps = [false; true; false; false] /\ map p_body ps = [[65;65;65]; [65;65;65]; [60;105;62]; [65;65;65]].
+Proof.
+  eexists. split; [vm_compute; reflexivity|]. cbv zeta. split.
+  - repeat constructor; vm_compute; reflexivity.
+  - eexists. eexists. split; [vm_compute; reflexivity|]. split; reflexivity.
+Qed.
+
 Print Assumptions C16_cache_transparent.
+Print Assumptions C16_server_cache_transparent.
+Print Assumptions C16_server_cache_example.
 Print Assumptions C16_server_answer_function_of_cache_key.
 Print Assumptions C16_route_index_function_of_key.
 Print Assumptions C16_cache_transparent_from_start.
